@@ -1091,6 +1091,9 @@ func (e *Engine) indexAddr(st *State, in *ssa.IndexAddr) ([]*State, bool) {
 			elemT = u.Elem().Underlying().(*types.Array).Elem()
 		}
 		_, isBasic := elemT.Underlying().(*types.Basic)
+		if isBasic && isString(elemT) {
+			isBasic = false // strings change length under later stores: always split on the index
+		}
 		if isBasic {
 			// strings of different lengths cannot be selected by an ite either
 			if sv, ok := x.(SliceV); ok && sv.Arr != -1 {
